@@ -486,6 +486,20 @@ partial def handle (e : Env) (w : Nat) (op : String) (args : List String) (got :
     match (mkCtx e w).bind fun mc => modelSim mc v p k q m with
     | some mdl => some { model := mdl, spec := [spec], tags := ["model.sim." ++ v ++ (if e.endom then ".endom" else ".plain")] ++ (if mdl == "err" then ["model.err"] else []) }
     | none => cls spec
+  | "eplc", [n, p, a, b] => do
+    -- compact ep_mul_sim_lot: points P, 2P, …, nP, scalars a, a + b, …; specification Σ (a + i b)(i + 1) P, model = the sim_lot model on the list
+    let n ← n.toNat?
+    let p ← parsePoint p
+    let a ← pI a
+    let b ← pI b
+    let pts := (List.range n).foldl (fun (acc : List Point) _ => match acc.getLast? with
+      | none => [p]
+      | some q => acc ++ [add c q p]) []
+    let pks := (pts.zip (List.range n)).map fun (q, i) => (q, a + (i : Int) * b)
+    let r := pks.foldl (fun acc (pk : Point × Int) => add c acc (mul c pk.1 pk.2)) none
+    match (mkCtx e w).bind fun mc => modelLot mc pks with
+    | some mdl => some { model := mdl, spec := [fmtPoint r], tags := ["eplc", "sim_lot.n" ++ toString n] }
+    | none => cls (fmtPoint r)
   | "epla", _ :: rest => handle e w "epl" rest got
   | "epda", _ :: rest => handle e w "epd" rest got
   | "epl", n :: rest => do
